@@ -25,7 +25,9 @@ def putVarUint (v : Nat) : Bytes :=
 
 /-- take exactly `n` bytes or fail (`r.Err = io.ErrUnexpectedEOF`). -/
 def takeN (n : Nat) (bs : Bytes) : Option (Bytes × Bytes) :=
-  if n ≤ bs.length then some (bs.take n, bs.drop n) else none
+  let x := bs.take n
+  -- (cost O(n), not O(|bs|): the driver reads megabyte inputs field by field)
+  if x.length = n then some (x, bs.drop n) else none
 
 def readVarUint : Bytes → Option (Nat × Bytes)
   | [] => none
